@@ -87,3 +87,27 @@ Proof.
   intros Hb HF W'. destruct (user_step_Full c o s la lq Hb HF) as [lq1 [F1 _]].
   symmetry. apply (WF_active_unique _ _ _ _ _ (f_wf _ _ _ F1) W').
 Qed.
+
+Lemma queued_group_is_queued_list s la lq : WF s la lq ->
+  exists r, iterate false s = Ok r /\ map fst r = lq /\ forall a v, In (a, v) r -> getv s a = Some v.
+Proof.
+  intros [_ [Hs Ht Hz Hn] _]. unfold iterate, walk_fuel. cbn [get_ls].
+  eapply ll_walk_seg; eauto. apply le_S. apply keys_length_le; auto.
+  intros a Ha. eapply seg_in_get; eauto.
+Qed.
+
+Lemma WF_queued_unique s la lq la' lq' : WF s la lq -> WF s la' lq' -> lq = lq'.
+Proof.
+  intros H1 H2. destruct (queued_group_is_queued_list s la lq H1) as [r [Hr [Hm _]]].
+  destruct (queued_group_is_queued_list s la' lq' H2) as [r' [Hr' [Hm' _]]]. congruence.
+Qed.
+
+(* the block number always advances, also when SyncPOS returns an error (the epoch's housekeeping is then skipped as a whole) *)
+Lemma block_number_advances c s : FullInv s -> blk (step c s OBlock) = blk s + 1.
+Proof. intros [la [lq HF]]. destruct (block_step_Full c s la lq HF) as [_ [_ [_ [_ [_ E]]]]]. exact E. Qed.
+
+Lemma block_error_skips_housekeeping c s :
+  (forall r, sync_pos c (blk s + 1) (w_blk (blk s + 1) s) <> Ok r) -> step c s OBlock = w_blk (blk s + 1) s.
+Proof.
+  intros H. unfold step. cbn [run_op]. destruct (sync_pos c (blk s + 1) (w_blk (blk s + 1) s)) as [[[s1 a] u]| |]; [exfalso; eapply H; eauto|reflexivity|reflexivity].
+Qed.
